@@ -1,7 +1,11 @@
 //! C15 — `ControlHandle::enable_streaming` / `disable_streaming` and
 //! `StreamParams::from_control` over a scripted in-memory U3V device.
-//! The real calls vs the Lean model (`CamVerif.Model.Streaming`): access order, results and the
-//! final device image are diffed; the property oracle (coverage, alignment, disable-first,
+//! The real calls vs the Lean models — `CamVerif.Model.Streaming` (one command per register,
+//! request `c15 run`), `CamVerif.Model.StreamingLimits` (negotiated maximum command / acknowledge
+//! lengths: reads and writes refused or cut into several commands, re-open of a handle with warm
+//! caches under other limits; `c15 runl`) and `CamVerif.Model.StreamingPublish` (a device that
+//! publishes new required sizes when the stream gets disabled; `c15 runp`): command order,
+//! results and the final device image are diffed; the property oracle (coverage, alignment, disable-first,
 //! enable-last, read-back, failure atomicity) is evaluated on the implementation's own effects.
 
 mod c14c15_common;
@@ -32,7 +36,9 @@ struct Case {
     /// ops: `e` enable_streaming, `d` disable_streaming, `s` sbrm(), `p` StreamParams::from_control,
     /// `l` start + stop of the real receive loop on the case's one StreamHandle (reports
     /// `StreamHandle::params()` and the transfers of the first frame), `M` the device changes
-    /// registers on its own (next entry of `pokes`)
+    /// registers on its own (next entry of `pokes`), `L` the handle is closed, the device
+    /// advertises other maximum command / acknowledge lengths (next entry of `pokes`: 8 bytes at
+    /// SBRM+0x14) and the same handle is opened again (its sbrm / sirm caches survive)
     ops: Vec<(char, Option<(usize, FaultKind)>)>,
     pokes: Vec<(u64, Vec<u8>)>,
     /// required payload/leader/trailer (16 bytes at SIRM+8) the device publishes only when the
@@ -115,16 +121,34 @@ impl Case {
             Region { base: self.sirm_addr, data: sirm },
         ]
     }
+    /// negotiated limits that admit every register access in one command (the interface of
+    /// Model/Streaming.lean); below them the request goes to the limits model (`runl`)
+    fn single_command_limits(&self) -> bool {
+        self.max_cmd >= 24 && self.max_ack >= 20
+    }
     fn request(&self) -> String {
-        let mut s = format!("c15 run {} 3", profile());
+        self.request_as(!self.single_command_limits() || self.ops.iter().any(|(c, _)| *c == 'L'))
+    }
+    /// `with_limits`: address the model with the negotiated limits inside
+    /// (Model/StreamingLimits.lean, `c15 runl`), else the one-command-per-register model
+    fn request_as(&self, with_limits: bool) -> String {
+        let mut s = if let Some(d) = &self.frozen {
+            // a device that publishes `d` at SIRM+8 when the stream gets disabled
+            // (Model/StreamingPublish.lean; one command per register)
+            format!("c15 runp {} {} {} {} 3", profile(), self.sirm_addr + SI_CONTROL, self.sirm_addr + 8, hex(d))
+        } else if with_limits {
+            format!("c15 runl {} {} {} 3", profile(), self.max_cmd, self.max_ack)
+        } else {
+            format!("c15 run {} 3", profile())
+        };
         for r in self.regions() {
             s.push_str(&format!(" {} {}", r.base, hex(&r.data)));
         }
         let mut pokes = self.pokes.iter();
         for (c, f) in &self.ops {
-            if *c == 'M' {
+            if *c == 'M' || *c == 'L' {
                 let (a, d) = pokes.next().expect("poke data");
-                s.push_str(&format!(" M:{a}:{}", hex(d)));
+                s.push_str(&format!(" {c}:{a}:{}", hex(d)));
                 continue;
             }
             match f {
@@ -168,6 +192,27 @@ fn run_impl(case: &Case) -> Result<(String, Vec<OpObs>), String> {
             let (a, d) = pokes.next().expect("poke data");
             let ok = usb.poke(*a, d);
             toks.push(format!("M={}", if ok { "ok" } else { "unmapped" }));
+            continue;
+        }
+        if *c == 'L' {
+            use cameleon::DeviceControl;
+            let (a, d) = pokes.next().expect("limits data");
+            let r = catch(|| -> Result<(), String> {
+                h.close().map_err(|e| format!("close:{}", ctrl_err_name(&e)))?;
+                if !usb.poke(*a, d) {
+                    return Err("unmapped".into());
+                }
+                h.open().map_err(|e| format!("open:{}", ctrl_err_name(&e)))
+            });
+            usb.take_log();
+            match r {
+                Ok(Ok(())) => toks.push("L=ok".into()),
+                Ok(Err(m)) => toks.push(format!("L=err:{m}")),
+                Err(()) => {
+                    toks.push("L=panic".into());
+                    break;
+                }
+            }
             continue;
         }
         let before = usb.peek(case.sirm_addr, SIRM_LEN);
@@ -473,8 +518,9 @@ fn run_case(rep: &mut Report, case: &Case, src: &str) -> Vec<usize> {
     run_case_opt(rep, case, src, true)
 }
 
-/// `compare`: also hand the case to the Lean model (false for negotiated limits outside the
-/// model's assumption "one register access = one command").
+/// `compare`: also hand the case to the Lean model (false only for device behaviour outside the
+/// Lean device model; negotiated limits below "one register access = one command" go to the
+/// limits model, see `Case::request`).
 fn run_case_opt(rep: &mut Report, case: &Case, src: &str, compare: bool) -> Vec<usize> {
     rep.count(&format!("src/{src}"));
     let req = case.request();
@@ -503,6 +549,17 @@ fn run_case_opt(rep: &mut Report, case: &Case, src: &str, compare: bool) -> Vec<
                 rep.sample(json!({"request": req, "impl": answer}));
             }
             if compare {
+                // theorem limits_single_command says the two models coincide on these limits:
+                // every 8th such case is put to the limits model as well
+                if case.frozen.is_some() {
+                    rep.count("model:publishing-device");
+                } else if case.single_command_limits() && rep.evaluations % 8 == 0 {
+                    rep.count("model:both");
+                    rep.expect(case.request_as(true), answer.clone());
+                }
+                if case.frozen.is_none() {
+                    rep.count(if case.single_command_limits() { "model:single-command" } else { "model:limits" });
+                }
                 rep.expect(req, answer);
             }
             obs.iter().map(|o| o.log.len()).collect()
@@ -641,7 +698,8 @@ fn plain_case(rng: &mut Rng, max_cmd: u32, max_ack: u32, enabled: bool) -> Case 
 ///   the split disable write must clear the enable bit and respect the limit.
 /// * max_ack 13..19 with max_cmd >= 24: register reads are split, writes are single commands:
 ///   the full property oracle applies.
-/// These cases are outside the Lean model's device interface and are checked by the oracle only.
+/// (a), (c) and the history of (b) (as a case with the re-open op `L`) are also compared with the
+/// limits model (`c15 runl`).
 fn boundary_limits(rep: &mut Report, rng: &mut Rng) {
     for max_cmd in [21u32, 22, 23] {
         for enabled in [false, true] {
@@ -652,8 +710,10 @@ fn boundary_limits(rep: &mut Report, rng: &mut Rng) {
             rep.count("src/boundary-small-max-cmd");
             match run_impl(&c) {
                 Err(m) => rep.violation(json!({"check": "harness-open"}), &m, c.to_json()),
-                Ok((_, obs)) => {
+                Ok((answer, obs)) => {
                     rep.case(&req, false);
+                    rep.count("model:limits");
+                    rep.expect(c.request(), answer);
                     for o in &obs {
                         if !o.res.starts_with("err") {
                             rep.violation(json!({"check": "small_max_cmd", "part": "result"}),
@@ -672,6 +732,31 @@ fn boundary_limits(rep: &mut Report, rng: &mut Rng) {
                 }
             }
             // (b) warm caches, then the device re-negotiates a smaller command length
+            // (b1) the same history as a case with the re-open op `L`, compared with the limits
+            // model: enable (caches warm), re-open with max_cmd 21..23, enable (refused, no
+            // command), disable (split write), read-back (refused), re-open with room again,
+            // enable, read-back
+            let mut c = plain_case(rng, 1024, 1024, enabled);
+            let lim = |cmd: u32, ack: u32| {
+                let mut d = cmd.to_le_bytes().to_vec();
+                d.extend_from_slice(&ack.to_le_bytes());
+                d
+            };
+            let small_ack = *rng.pick(&[13u32, 16, 19, 1024]);
+            c.ops = vec![('e', None), ('L', None), ('e', None), ('d', None), ('p', None), ('L', None), ('e', None), ('p', None), ('d', None)];
+            c.pokes = vec![(c.sbrm_addr + 0x14, lim(max_cmd, 1024)), (c.sbrm_addr + 0x14, lim(24 + rng.below(8) as u32, small_ack))];
+            rep.count("src/boundary-reopen-with-other-limits");
+            match run_impl(&c) {
+                Err(m) => rep.violation(json!({"check": "harness-open"}), &m, c.to_json()),
+                Ok((answer, obs)) => {
+                    rep.case(&c.request(), obs.iter().any(|o| o.kind == 'e' && o.res == "ok"));
+                    rep.count("model:limits");
+                    if !answer.contains("L=ok") || answer.contains("L=err") || answer.contains("panic") {
+                        rep.violation(json!({"check": "harness-open", "part": "reopen"}), &answer, c.to_json());
+                    }
+                    rep.expect(c.request(), answer);
+                }
+            }
             let c = plain_case(rng, 1024, 1024, enabled);
             rep.count("src/boundary-small-max-cmd-after-reopen");
             rep.case(&format!("boundary reopen max_cmd={max_cmd} enabled={enabled}"), true);
@@ -731,7 +816,7 @@ fn boundary_limits(rep: &mut Report, rng: &mut Rng) {
             for enabled in [false, true] {
                 let mut c = plain_case(rng, max_cmd, max_ack, enabled);
                 c.ops = vec![('e', None), ('p', None), ('e', None), ('d', None)];
-                run_case_opt(rep, &c, "boundary-small-max-ack", max_ack >= 20);
+                run_case_opt(rep, &c, "boundary-small-max-ack", true);
             }
         }
     }
@@ -814,7 +899,7 @@ fn main() {
     if let Some(path) = &args.replay {
         let v: Value = serde_json::from_str(&std::fs::read_to_string(path).unwrap()).unwrap();
         let case = Case::from_json(&v["replay"]);
-        let compare = case.frozen.is_none() && case.max_cmd >= 24 && case.max_ack >= 20;
+        let compare = case.frozen.is_none() || case.single_command_limits();
         run_case_opt(&mut rep, &case, "replay", compare);
         rep.write(&args);
         return;
@@ -873,7 +958,9 @@ fn main() {
     // 1d. a device that keeps the required sizes frozen while the stream is enabled and publishes
     // the sizes of the new configuration when the host disables the stream (USB3 Vision: "never
     // changed while stream is enabled"): the call has to cover what the device requires after it.
-    // Outside the Lean device model (its registers do not change on their own): oracle only.
+    // Compared with the publishing-device model (`c15 runp`, Model/StreamingPublish.lean) and
+    // checked by the oracle; every third case lets the disable write fail or lose its acknowledge
+    // (a refused write publishes nothing, an executed one does).
     for i in 0..(if args.thorough() { 300 } else { 60 }) {
         let mut c = plain_case(&mut rng, 1024, 1024, true);
         c.req_payload = 640 * 480;
@@ -886,7 +973,40 @@ fn main() {
         d.extend_from_slice(&trailer.to_le_bytes());
         c.frozen = Some(d);
         c.ops = if i % 2 == 0 { vec![('e', None), ('p', None)] } else { vec![('e', None), ('l', None), ('d', None)] };
-        run_case_opt(&mut rep, &c, "requirements-published-on-disable", false);
+        if i % 3 == 2 {
+            // accesses of the first op on a fresh handle: 3 resolution reads, SI_CONTROL read,
+            // disable write (index 4), ...
+            let k = 3 + rng.below(4) as usize;
+            c.ops = vec![('e', Some(gen_fault(&mut rng, k))), ('p', None), ('e', None), ('p', None)];
+        }
+        run_case_opt(&mut rep, &c, "requirements-published-on-disable", true);
+    }
+
+    // 1e. random cases under small negotiated limits (reads refused / split, writes refused /
+    // split), compared with the limits model; for a subset the failure of every COMMAND of the
+    // first op (a register read may fail in its second half), then a retry and a read-back
+    let small_rounds = if args.thorough() { 8_000 } else { 800 };
+    for i in 0..small_rounds {
+        let mut c = if rng.chance(1, 2) { gen_case(&mut rng) } else { plain_case(&mut rng, 0, 0, false) };
+        if rng.chance(1, 2) {
+            c.si_control |= 1;
+        }
+        c.max_cmd = *rng.pick(&[20u32, 21, 22, 23, 24, 24, 24, 25, 27, 28, 64, 1024]);
+        c.max_ack = *rng.pick(&[12u32, 13, 13, 14, 15, 16, 17, 19, 19, 20, 21, 1024]);
+        if c.single_command_limits() {
+            c.max_ack = 13 + rng.below(7) as u32;
+        }
+        let ns = run_case(&mut rep, &c, "random-small-limits");
+        let n = ns.first().copied().unwrap_or(0);
+        if i % 10 == 0 {
+            for k in 0..=n {
+                let mut cf = c.clone();
+                let f = gen_fault(&mut rng, k);
+                let first = cf.ops[0].0;
+                cf.ops = vec![(first, Some(f)), ('p', None), ('e', None), ('p', None)];
+                run_case(&mut rep, &cf, "small-limits-fault-each-command");
+            }
+        }
     }
 
     // 2. random cases incl. larger exponents, unmapped / overflowing maps, op sequences
